@@ -105,3 +105,32 @@ Definition init_max_running (gomaxprocs total pct bytes_per_query : N) : N :=
   let m := ((total * pct) / 100) / bytes_per_query in
   let m := if m <? 2 then 2 else m in
   if m <? gomaxprocs then m else gomaxprocs.
+
+(* ---------- lock scenarios (the functions of querystatus.go called one after the other while the
+   channels of the queries in [fl] are full and nobody receives) ----------
+   observed per call: did it return before the channel was drained ([lo_parked] = it did not), and
+   what TryLock / TryRLock probes of arqMapLock, waitingQueriesLock and the rqsLock of the blocked
+   query [b] saw once the call had returned or parked *)
+Definition full_of (fl : list N) (q : N) : bool := existsb (N.eqb q) fl.
+Record lobs := mkLO { lo_parked : bool; lo_arq : N; lo_waitq : N; lo_rqs : N }.
+
+Fixpoint lcheck_from (fl : list N) (b : N) (ps : list park) (tr : list (lop * lobs)) (idx : nat) : list nat :=
+  match tr with
+  | [] => []
+  | (o, ob) :: r =>
+    let res := exec (full_of fl) ps [] (script o) in
+    let ps' := match res with None => ps | Some p => ps ++ [p] end in
+    (if Bool.eqb (match res with None => false | Some _ => true end) (lo_parked ob)
+        && (probe ps' LArq =? lo_arq ob) && (probe ps' LWaitQ =? lo_waitq ob)
+        && (probe ps' (LRqs b) =? lo_rqs ob)
+     then [] else [idx]) ++ lcheck_from fl b ps' r (S idx)
+  end.
+
+(* one case = (qids with a full channel, the first of them is the probed one; trace);
+   result = indices of the cases with at least one disagreeing call *)
+Fixpoint lcheck_cases (cs : list (list N * list (lop * lobs))) (idx : nat) : list nat :=
+  match cs with
+  | [] => []
+  | (fl, tr) :: r =>
+    (match lcheck_from fl (hd 0 fl) [] tr O with [] => [] | _ => [idx] end) ++ lcheck_cases r (S idx)
+  end.
